@@ -84,6 +84,14 @@ def R_ret(toks):
 
 def R_pub(toks):
     """make the item `pub` if it is not (visibility only; needed so that open spec fns may mention it)."""
+    for i, t in enumerate(toks):
+        if t.kind == "ident" and t.text in ("struct", "enum", "fn", "const", "type"):
+            if i > 0 and toks[i-1].text in ("pub", ")"): return toks, 0
+            out = list(toks)
+            new = _mk(["pub"], t, t.pre)
+            out[i] = t.copy(); out[i].pre = " "
+            out[i:i] = new
+            return out, 1
     return toks, 0
 
 def R_refpat(toks):
